@@ -22,10 +22,11 @@ impl Parser for EnumValue {
                 )),
                 opt(blank),
                 opt(Annotations::parse),
+                opt(blank),
                 opt(list_separator),
                 opt(blank),
             )),
-            |(name, _, value, _, annotations, _, _)| EnumValue {
+            |(name, _, value, _, annotations, _, _, _)| EnumValue {
                 name,
                 value,
                 annotations: annotations.unwrap_or_default(),
